@@ -14,22 +14,23 @@ size, no bound — of `tcp::decode` (both directions) and `rtu::decode` (respons
 function codes 0x0F / 0x10, open finding D4, with a witness), and carried to the four ADU decoders.
 -/
 namespace Modbus.C10
+open Reception
 
 /-! ### the scan loop, for an arbitrary attempt -/
 
 /-- the first attempt finds a frame ⇒ it is reported at offset 0 (whatever follows in `buf`) -/
 theorem scan_at_zero {F : Type} (att : Attempt F) (buf : Bytes) (f : F) (sz : Nat)
     (h : att buf = .ok (some (f, sz))) (h2 : 2 ≤ buf.length) :
-    scan att buf = .ok (some (f, ⟨0, sz⟩)) := Modbus.scan_at_zero att buf f sz h h2
+    scan att buf = .ok (some (f, ⟨0, sz⟩)) := Reception.scan_at_zero att buf f sz h h2
 
 /-- the first attempt is incomplete ⇒ the scan is incomplete -/
 theorem scan_prefix_none {F : Type} (att : Attempt F) (p : Bytes)
     (h : att p = .ok none) (h2 : 2 ≤ p.length) : scan att p = .ok none :=
-  Modbus.scan_prefix_none att p h h2
+  Reception.scan_prefix_none att p h h2
 
 /-- one byte is never attempted -/
 theorem scan_one_byte {F : Type} (att : Attempt F) (p : Bytes) (h1 : p.length = 1) :
-    scan att p = .ok none := Modbus.scan_one_byte att p h1
+    scan att p = .ok none := Reception.scan_one_byte att p h1
 
 example : Rtu.attemptRsp [0x01, 0x03, 0x02] = .ok none ∧ 2 ≤ [0x01, 0x03, 0x02].length := by decide +kernel
 example : Rtu.attemptRsp [0x01, 0x83, 0x02, 0xC0, 0xF1, 0x55] = .ok (some (⟨0x01, [0x83, 0x02]⟩, 5)) := by
@@ -49,18 +50,18 @@ theorem good_reads {F : Type} {scanf : Bytes → Res (Option (F × Loc))} {f : B
 theorem tcp_req_good (tid : UInt16) (uid : UInt8) (pdu : Bytes)
     (hc : Spec.PduComplete .req pdu) (hn : pdu.length + 1 < 65536) :
     Good Tcp.decodeReq (Spec.tcpFrame tid uid pdu) ⟨tid, uid, pdu⟩ :=
-  Modbus.tcp_req_good tid uid pdu hc hn
+  Reception.tcp_req_good tid uid pdu hc hn
 
 /-- TCP responses -/
 theorem tcp_rsp_good (tid : UInt16) (uid : UInt8) (pdu : Bytes)
     (hc : Spec.PduComplete .rsp pdu) (hn : pdu.length + 1 < 65536) :
     Good Tcp.decodeRsp (Spec.tcpFrame tid uid pdu) ⟨tid, uid, pdu⟩ :=
-  Modbus.tcp_rsp_good tid uid pdu hc hn
+  Reception.tcp_rsp_good tid uid pdu hc hn
 
 /-- RTU responses -/
 theorem rtu_rsp_good (slave : UInt8) (pdu : Bytes) (hc : Spec.PduComplete .rsp pdu) :
     Good Rtu.decodeRsp (Spec.rtuFrame slave pdu) ⟨slave, pdu⟩ :=
-  Modbus.rtu_rsp_good slave pdu hc
+  Reception.rtu_rsp_good slave pdu hc
 
 /-
 Full statement for RTU requests — FALSE for the model of the unedited crate (open finding D4):
@@ -77,7 +78,7 @@ from the proved statement: exactly the frames whose PDU starts with 0x0F or 0x10
 theorem rtu_req_good_partial (slave : UInt8) (pdu : Bytes) (hc : Spec.PduComplete .req pdu)
     (hF : pdu[0]? ≠ some 0x0F) (h10 : pdu[0]? ≠ some 0x10) :
     Good Rtu.decodeReq (Spec.rtuFrame slave pdu) ⟨slave, pdu⟩ :=
-  Modbus.rtu_req_good_partial slave pdu hc hF h10
+  Reception.rtu_req_good_partial slave pdu hc hF h10
 
 /-- D4: a valid write-multiple-registers request (address 1, two registers 0x000A 0x0102, correct
 CRC) presented whole is answered 'incomplete' by `rtu::decode`: the predictor takes the low
@@ -140,7 +141,7 @@ theorem rtu_rsp_wellformed (f : Bytes) (h : Spec.WellFormedRtu .rsp f) : ∃ x, 
 theorem rtu_req_wellformed_partial (f : Bytes) (h : Spec.WellFormedRtu .req f)
     (hF : f[1]? ≠ some 0x0F) (h10 : f[1]? ≠ some 0x10) : ∃ x, Good Rtu.decodeReq f x := by
   obtain ⟨slave, pdu, hc, rfl⟩ := h
-  have hb := hc.bounds
+  have hb := pduComplete_bounds hc
   have e : (Spec.rtuFrame slave pdu)[1]? = pdu[0]? := by
     unfold Spec.rtuFrame
     rw [List.cons_append, List.getElem?_cons_succ]
@@ -169,10 +170,10 @@ theorem tcp_decode_request (tid : UInt16) (uid : UInt8) (pdu : Bytes)
     (∀ rest, Tcp.decodeRequest (Spec.tcpFrame tid uid pdu ++ rest) =
       Tcp.decodeRequest (Spec.tcpFrame tid uid pdu)) := by
   have g := tcp_req_good tid uid pdu hc hn
-  refine ⟨Tcp.decodeRequest_prefix g, Tcp.decodeRequest_whole g, fun rest => ?_⟩
-  have h0 := Tcp.decodeRequest_whole g []
+  refine ⟨tcp_decodeRequest_prefix g, tcp_decodeRequest_whole g, fun rest => ?_⟩
+  have h0 := tcp_decodeRequest_whole g []
   rw [List.append_nil] at h0
-  rw [Tcp.decodeRequest_whole g rest, h0]
+  rw [tcp_decodeRequest_whole g rest, h0]
 
 /-- `tcp::server::decode_response` -/
 theorem tcp_decode_response (tid : UInt16) (uid : UInt8) (pdu : Bytes)
@@ -184,10 +185,10 @@ theorem tcp_decode_response (tid : UInt16) (uid : UInt8) (pdu : Bytes)
     (∀ rest, Tcp.decodeResponse (Spec.tcpFrame tid uid pdu ++ rest) =
       Tcp.decodeResponse (Spec.tcpFrame tid uid pdu)) := by
   have g := tcp_rsp_good tid uid pdu hc hn
-  refine ⟨Tcp.decodeResponse_prefix g, Tcp.decodeResponse_whole g, fun rest => ?_⟩
-  have h0 := Tcp.decodeResponse_whole g []
+  refine ⟨tcp_decodeResponse_prefix g, tcp_decodeResponse_whole g, fun rest => ?_⟩
+  have h0 := tcp_decodeResponse_whole g []
   rw [List.append_nil] at h0
-  rw [Tcp.decodeResponse_whole g rest, h0]
+  rw [tcp_decodeResponse_whole g rest, h0]
 
 /-- `rtu::client::decode_response` -/
 theorem rtu_client_decode_response (slave : UInt8) (pdu : Bytes) (hc : Spec.PduComplete .rsp pdu) :
@@ -198,10 +199,10 @@ theorem rtu_client_decode_response (slave : UInt8) (pdu : Bytes) (hc : Spec.PduC
     (∀ rest, Rtu.clientDecodeResponse (Spec.rtuFrame slave pdu ++ rest) =
       Rtu.clientDecodeResponse (Spec.rtuFrame slave pdu)) := by
   have g := rtu_rsp_good slave pdu hc
-  refine ⟨Rtu.clientDecodeResponse_prefix g, Rtu.clientDecodeResponse_whole g, fun rest => ?_⟩
-  have h0 := Rtu.clientDecodeResponse_whole g []
+  refine ⟨rtu_clientDecodeResponse_prefix g, rtu_clientDecodeResponse_whole g, fun rest => ?_⟩
+  have h0 := rtu_clientDecodeResponse_whole g []
   rw [List.append_nil] at h0
-  rw [Rtu.clientDecodeResponse_whole g rest, h0]
+  rw [rtu_clientDecodeResponse_whole g rest, h0]
 
 /-
 Full statement: the same without `hF`, `h10` — false for the unedited crate (D4): on the witness
@@ -217,10 +218,10 @@ theorem rtu_server_decode_request_partial (slave : UInt8) (pdu : Bytes) (hc : Sp
     (∀ rest, Rtu.serverDecodeRequest (Spec.rtuFrame slave pdu ++ rest) =
       Rtu.serverDecodeRequest (Spec.rtuFrame slave pdu)) := by
   have g := rtu_req_good_partial slave pdu hc hF h10
-  refine ⟨Rtu.serverDecodeRequest_prefix g, Rtu.serverDecodeRequest_whole g, fun rest => ?_⟩
-  have h0 := Rtu.serverDecodeRequest_whole g []
+  refine ⟨rtu_serverDecodeRequest_prefix g, rtu_serverDecodeRequest_whole g, fun rest => ?_⟩
+  have h0 := rtu_serverDecodeRequest_whole g []
   rw [List.append_nil] at h0
-  rw [Rtu.serverDecodeRequest_whole g rest, h0]
+  rw [rtu_serverDecodeRequest_whole g rest, h0]
 
 /-- D4 at the ADU decoder: the valid frame of the witness is answered 'incomplete' -/
 theorem rtu_server_decode_request_defect_witness :
